@@ -15,32 +15,85 @@
 (* and leaves count and cursor at k; clear releases everything.  After every *)
 (* call the flags are exactly the slots held and the count is their number.  *)
 (* An atomic counter never loses an update.                                  *)
+(* reserve(n) on an empty pool hands out exactly the slots 0 .. n-1 (the     *)
+(* persistent hydro tasks), clear_fast on an empty pool only rewinds the     *)
+(* cursor, "active" reports exactly the slots held (arg = bit set, ret =     *)
+(* their number).                                                            *)
+(*  {"e":"qreset"} {"e":"q","op":o,"a":x,"b":y,"ret":r,"queue":[..]}         *)
+(*       one TaskQueue used by one thread, tasks without resources: add      *)
+(*       appends x, add_range appends x .. y-1 in order, get / try_get hand  *)
+(*       out the newest entry (or nothing iff the queue is empty); the queue *)
+(*       lock is free after every call.  Every index is handed out at most   *)
+(*       once and only if it was queued.                                     *)
+(*  {"e":"ovf","cap":C,"first":f,"t0":n,"nin":m,"ret_same":s,"fresh":h,      *)
+(*   "target":[..],"spill":[..],"hdr":0|1,"dtaken":d}                        *)
+(*       MemorySpace::add_photons: a pool buffer holding the packets f ..    *)
+(*       f+n-1 receives the m packets f+n .. f+n+m-1 of a staging buffer.    *)
+(*       Layer A: no packet is lost or duplicated and the order is kept:     *)
+(*       target \o spill = <<f, .., f+n+m-1>>; the target overflows only     *)
+(*       when it is full; a spill buffer is a fresh slot of the pool (one    *)
+(*       more slot in use), inherits subgrid and direction, and is returned  *)
+(*       iff the target became full.                                         *)
 (***************************************************************************)
 EXTENDS Integers, Sequences, FiniteSets, TLC, Json, IOUtils
 TraceLog == ndJsonDeserialize(IOEnv.TRACE)
-VARIABLES l, size, held, bad
-vars == <<l, size, held, bad>>
+VARIABLES l, size, held, bad, queue, handed
+vars == <<l, size, held, bad, queue, handed>>
 Rec == TraceLog[l]
 IsEvent(e) == l <= Len(TraceLog) /\ Rec.e = e /\ l' = l + 1
 Tag(c, t) == IF c THEN {} ELSE {t}
 FlagSet(r) == {i \in 0 .. Len(r.flags) - 1 : r.flags[i + 1] = 1}
-Init == l = 1 /\ size = 0 /\ held = {} /\ bad = {}
-TReset == IsEvent("mreset") /\ size' = Rec.size /\ held' = {} /\ UNCHANGED bad
+BitSet(n) == {i \in 0 .. size - 1 : (n \div (2 ^ i)) % 2 = 1}
+Init == l = 1 /\ size = 0 /\ held = {} /\ bad = {} /\ queue = <<>> /\ handed = {}
+TReset == IsEvent("mreset") /\ size' = Rec.size /\ held' = {} /\ UNCHANGED <<bad, queue, handed>>
 NewHeld == CASE Rec.op = "get" -> held \cup {Rec.ret}
              [] Rec.op = "free" -> held \ {Rec.arg}
              [] Rec.op = "clear_after" -> {i \in held : i < Rec.arg}
+             [] Rec.op = "reserve" -> 0 .. Rec.arg - 1
+             [] Rec.op \in {"active", "clear_fast"} -> held
              [] OTHER -> {}
 TOp == /\ IsEvent("m")
        /\ held' = NewHeld
        /\ bad' = bad \cup Tag(Rec.op = "get" => (Rec.ret \in 0 .. size - 1 /\ Rec.ret \notin held), "handout")
                      \cup Tag(FlagSet(Rec) = NewHeld, "flags")
                      \cup Tag(Rec.taken = Cardinality(NewHeld), "count")
-                     \cup Tag(Rec.op = "clear_after" => Rec.cursor = Rec.arg, "cursor")
-       /\ UNCHANGED size
+                     \cup Tag(Rec.op \in {"clear_after", "reserve"} => Rec.cursor = Rec.arg, "cursor")
+                     \cup Tag(Rec.op \in {"clear", "clear_fast"} => Rec.cursor = 0, "cursor")
+                     \cup Tag(Rec.op \in {"reserve", "clear_fast"} => held = {}, "precondition")
+                     \cup Tag(Rec.op = "active" => (BitSet(Rec.arg) = held /\ Rec.ret = Cardinality(held)), "census")
+       /\ UNCHANGED <<size, queue, handed>>
 TStress == /\ IsEvent("stress")
            /\ bad' = bad \cup Tag(Rec.got = Rec.expected, "lostupdate")
-           /\ UNCHANGED <<size, held>>
-Next == TReset \/ TOp \/ TStress
+           /\ UNCHANGED <<size, held, queue, handed>>
+\* ---- one task queue, sequentially ----
+Range(a, b) == [i \in 1 .. (b - a) |-> a + i - 1]
+TQReset == IsEvent("qreset") /\ queue' = <<>> /\ handed' = {} /\ UNCHANGED <<size, held, bad>>
+TQ == /\ IsEvent("q")
+      /\ LET isget == Rec.op \in {"get", "try_get"}
+             q1 == CASE Rec.op = "add" -> Append(queue, Rec.a)
+                     [] Rec.op = "add_range" -> queue \o Range(Rec.a, Rec.b)
+                     [] OTHER -> IF queue = <<>> THEN queue ELSE SubSeq(queue, 1, Len(queue) - 1)
+         IN /\ queue' = q1
+            /\ handed' = IF isget /\ Rec.ret >= 0 THEN handed \cup {Rec.ret} ELSE handed
+            /\ bad' = bad \cup Tag(Rec.queue = q1, "queue")
+                          \cup Tag(isget => IF queue = <<>> THEN Rec.ret = -1
+                                                            ELSE Rec.ret = queue[Len(queue)] /\ Rec.ret \notin handed, "taskhandout")
+                          \cup Tag(Rec.locked = 0, "queuelock")
+      /\ UNCHANGED <<size, held>>
+\* ---- overflow of a photon buffer ----
+TOvf == /\ IsEvent("ovf")
+        /\ LET all == Rec.target \o Rec.spill
+               n == Rec.t0 + Rec.nin
+           IN bad' = bad \cup Tag(/\ Len(all) = n
+                                   /\ \A i \in 1 .. n : all[i] = Rec.first + i - 1, "packets")
+                         \cup Tag(/\ Len(Rec.target) <= Rec.cap
+                                   /\ (Rec.spill # <<>> => Len(Rec.target) = Rec.cap), "fill")
+                         \cup Tag(/\ (Rec.ret_same = 0) = (n >= Rec.cap)
+                                   /\ (Rec.ret_same = 0 => Rec.fresh = 1 /\ Rec.dtaken = 1)
+                                   /\ (Rec.ret_same = 1 => Rec.dtaken = 0)
+                                   /\ Rec.hdr = 1, "spillbuffer")
+        /\ UNCHANGED <<size, held, queue, handed>>
+Next == TReset \/ TOp \/ TStress \/ TQReset \/ TQ \/ TOvf
 Spec == Init /\ [][Next]_vars
 ASSUME TLCSet(1, 0)
 TrackL == TLCSet(1, IF l > TLCGet(1) THEN l ELSE TLCGet(1))
@@ -49,4 +102,9 @@ NoDoubleHandout == "handout" \notin bad
 SlotsAreWhatIsHeld == bad \cap {"flags", "cursor"} = {}
 QuiescentCount == "count" \notin bad
 NoLostUpdate == "lostupdate" \notin bad
+MaintenanceContracts == bad \cap {"precondition", "census"} = {}
+\* every index put into the queue is handed out at most once, newest first, never when it was not queued
+QueueHandsOutOnce == bad \cap {"queue", "taskhandout", "queuelock"} = {}
+\* an overflowing buffer loses or duplicates no packet and spills into a fresh slot with the same destination
+OverflowExact == bad \cap {"packets", "fill", "spillbuffer"} = {}
 =============================================================================
